@@ -126,7 +126,7 @@ let () =
       print_endline (String.concat " | " (List.rev outs) ^ " ; P=" ^ hexs s.vo_peer)
     | "sess" :: aaa :: evs ->
       let s0 = sess_start fl (if aaa = "none" then None else Some (unhex aaa)) in
-      let first = "scr:" ^ show_opts s0.s_lastreq ^ " a=" ^ show_addr s0.s_addr ^ " pa=" ^ show_addr s0.s_cfg.ic_assigned in
+      let first = (if int_of_n s0.s_fsm = 0 then "-" else "scr:" ^ show_opts s0.s_lastreq) ^ " a=" ^ show_addr s0.s_addr ^ " pa=" ^ show_addr s0.s_cfg.ic_assigned in
       let (outs, _) = List.fold_left (fun (acc, s) ev ->
           let tl = String.sub ev 1 (String.length ev - 1) in
           let e = if ev = "k" then EvAck
